@@ -152,6 +152,7 @@ def run(ctx: Ctx) -> None:
             ctx.nontrivial.add(jhash([c["fid"], c["nulls"], c["na"], c["drop0"]]))
         for b in bad:
             ctx.violation({k: b[k] for k in ("formula", "nulls", "na", "drop0", "index", "path", "output")}, b, kind="replay")
+    ctx.require("replay: executed builds", sum(n for _, n in res), 1000)
     for c in [c for c in cases if c["nulls"]["a"] and c["nulls"]["A"] and c["na"] == "drop" and c["fid"] == 5][:2]:
         ctx.sample({"formula": FORMULAS[c["fid"]], "nulls": c["nulls"], "drop0": c["drop0"], "expected_drop": c["drop1"], "kept": c["kept"]})
     ctx.exhaustive = True
